@@ -84,7 +84,7 @@ func main() {
 		for {
 			time.Sleep(50 * time.Millisecond)
 			runtime.ReadMemStats(&ms)
-			if ms.HeapAlloc > 1<<30 {
+			if ms.HeapAlloc > 256<<20 {
 				_ = enc.Encode(wk.Response{ID: current, OOM: true})
 				out.Flush()
 				os.Exit(3)
